@@ -358,8 +358,13 @@ pub fn seq_count<'text, 'a, Sc>(tokens: &'a [Sc::Token])
                 // Incorrect token.
                 Some(_) => break,
 
-                // Unrecognized token.
+                // No further tokens: only filtered tokens remain, or the
+                // scanner stopped at an unrecognized token.
                 None => {
+                    let mut end_lexer = lexer.clone();
+                    let _ = end_lexer.next();
+                    if end_lexer.is_empty() { break }
+
                     event!(Level::ERROR, "UnrecognizedTokenError: {}", lexer);
                     return Err(Box::new(UnrecognizedTokenError {
                         error_span,
